@@ -3,6 +3,8 @@ package props
 import (
 	"time"
 
+	"exoverif/sim"
+
 	sdk "github.com/cosmos/cosmos-sdk/types"
 	"math/big"
 	"sort"
@@ -528,12 +530,25 @@ func (m *Machine) drawPrice(t *rapid.T, g *GenOpts, a *Action) {
 		}
 	}
 	a.Key = uniform(t, len(m.Keys), "pkey")
-	if len(valKeys) > 0 && pct(t, 88, "valkey?") {
+	if len(valKeys) > 0 && pct(t, 85, "valkey?") {
 		a.Key = valKeys[uniform(t, len(valKeys), "vkey")]
+	} else if len(m.W.ConsKeys) > 0 && pct(t, 60, "genesiskey?") {
+		// a genesis validator key: possibly a former validator by now
+		a.Key = uniform(t, len(m.W.ConsKeys), "gkey")
 	}
-	feeders := m.W.Cfg.Feeders
+	feeders := m.W.Feeders
 	f := feeders[uniform(t, len(feeders), "feeder")]
-	a.Feeder = uint64(f.Asset + 1)
+	// prefer a feeder that is running at this height
+	var running []sim.FeederInfo
+	for _, x := range feeders {
+		if uint64(c.Height) > x.StartBaseBlock && (x.EndBlock == 0 || uint64(c.Height) <= x.EndBlock) {
+			running = append(running, x)
+		}
+	}
+	if len(running) > 0 && pct(t, 85, "running?") {
+		f = running[uniform(t, len(running), "rfeeder")]
+	}
+	a.Feeder = f.ID
 	// the round a submission in the block in progress belongs to
 	h := uint64(c.Height)
 	based := uint64(0)
@@ -551,7 +566,7 @@ func (m *Machine) drawPrice(t *rapid.T, g *GenOpts, a *Action) {
 	}
 	a.PNonce = nonce
 	a.Src = 1
-	a.Dec = m.W.Cfg.Assets[f.Asset].PriceDecimal
+	a.Dec = m.W.Cfg.Assets[f.Token-1].PriceDecimal
 	a.Ts = c.Time.UTC().Format("2006-01-02 15:04:05")
 	nd := 1
 	if pct(t, 25, "twodets?") {
